@@ -98,6 +98,9 @@ func runMutant(repo string, m Mutant, secs int) (bool, string) {
 	failed := map[string]string{}
 	for _, r := range results {
 		if !r.OK {
+			if r.O.Expect == "sat" && r.R.Status != "unsat" {
+				continue // an open vacuity guard is not a failure (as in check)
+			}
 			failed[oblClass(r.O.Name)] = r.R.Status
 		}
 	}
